@@ -123,7 +123,12 @@ def _search_one(variant, families, deep=0):
                     try:
                         out['findings'].append(dict(json.loads(l), backend=variant))
                     except ValueError:
-                        pass
+                        # never drop a finding silently: keep what can be salvaged and say so
+                        import re as _re
+                        g = lambda k: (_re.search(r'"%s":"([^"]*)"' % k, l) or [None, ''])[1]
+                        gi = lambda k: int((_re.search(r'"%s":(\d+)' % k, l) or [None, '0'])[1])
+                        out['findings'].append(dict(stage=g('stage'), gen=g('gen'), family=g('family'), oracle=g('oracle'), entry=g('entry'), cfg=gi('cfg'), cap=gi('cap'),
+                                                    input_hex=g('input_hex'), input=g('input'), real='(unparseable finding line) ' + l[:300], expected='', backend=variant))
             for l in p.stderr.split('\n'):
                 if l.startswith('evaluations='):
                     out['evaluations'] += int(l.split()[0].split('=')[1])
